@@ -297,7 +297,9 @@ class DirectCollocation(SamplingMethod):
             else:
                 # Row vector if vector
                 if value.is_column() and var.is_scalar(): value = value.T
-                for k in list(range(self.N))+[-1]:
+                # Final node first: for quantities without a final-node instance (controls, ...) k=-1 aliases
+                # the last interval, whose own pass (k=N-1) must have the last word
+                for k in [-1]+list(range(self.N)):
                     target = self.eval_at_control(stage, var, k)
                     value_k = value
                     if target.numel()*(self.N)==value.numel() or target.numel()*(self.N+1)==value.numel():
